@@ -123,7 +123,9 @@ def _case(draw):
     return {"kind": kind, "mols": mols, "J": J, "pols": pols, "quat": list(q), "scale": draw(st.sampled_from([0.5, 2.0, 1.5])),
             "t2i": draw(st.integers(0, 5)), "shape": draw(st.sampled_from(["Gaussian", "Gaussian", "Lorentzian"])),
             # Lorentzian shapes: a common dephasing time unless this flag is set
-            "deph_distinct": draw(st.sampled_from([False, False, False, True]))}
+            "deph_distinct": draw(st.sampled_from([False, False, False, True])),
+            # order in which the parts of the response are read (reading must not change anything)
+            "read_order": draw(st.lists(st.sampled_from(["R", "N", "T"]), min_size=0, max_size=5))}
 
 
 def strategy(tier):
@@ -138,7 +140,14 @@ def rotation(q):
                         [2 * (b * d - a * c), 2 * (c * d + a * b), a * a - b * b - c * c + d * d]]) / nrm
 
 
-def response(qr, mols, J, pols, t2i, shape, mult=2, want_pathways=False, deph_common=None):
+class ReadChanged(HarnessError):
+    """a part of the response read a second time differs from the first read"""
+    def __init__(self, part, dev, order):
+        HarnessError.__init__(self, part)
+        self.part, self.dev, self.order = part, dev, order
+
+
+def response(qr, mols, J, pols, t2i, shape, mult=2, want_pathways=False, deph_common=None, read_order=None):
     """(REPH, NONR, TOTAL [, pathways, aggregate]) of the mock calculator for the given system"""
     from quantarhei.spectroscopy.mocktwodcalculator import MockTwoDResponseCalculator
     n = len(mols)
@@ -177,10 +186,17 @@ def response(qr, mols, J, pols, t2i, shape, mult=2, want_pathways=False, deph_co
     pw = {}
     t2 = float(t2axis.data[t2i])
     resp = calc.calculate_one_system(t2, agg, eUt, lab, pways=pw)
-    out = []
-    for flag in (qr.signal_REPH, qr.signal_NONR, qr.signal_TOTL):
-        resp.set_data_flag(flag)
-        out.append(numpy.array(resp.d__data, copy=True))
+    flags = {"R": qr.signal_REPH, "N": qr.signal_NONR, "T": qr.signal_TOTL}
+    order = list(read_order or []) + ["R", "N", "T"]
+    reads = {"R": [], "N": [], "T": []}
+    for k in order:
+        resp.set_data_flag(flags[k])
+        reads[k].append(numpy.array(resp.d__data, copy=True))
+    for k in reads:
+        for later in reads[k][1:]:
+            if not numpy.array_equal(later, reads[k][0]):
+                raise ReadChanged(k, float(numpy.max(numpy.abs(later - reads[k][0]))), order)
+    out = [reads["R"][0], reads["N"][0], reads["T"][0]]
     if want_pathways:
         return out[0], out[1], out[2], pw[str(t2)], agg
     return out[0], out[1], out[2]
@@ -199,7 +215,12 @@ def check_case(case, ctx):
     ctx.label(kind, "N=%d" % n, shape, "t2=%d" % t2i, "nonparallel-pols" if nonpar else "parallel-pols")
     tag = kind + "/" + shape + ("/distinct-dephasing" if distinct else "")
 
-    ok, r = guarded(ctx, "response", lambda: response(qr, mols, J, pols, t2i, shape, want_pathways=True, deph_common=dc), tag)
+    try:
+        ok, r = guarded(ctx, "response", lambda: response(qr, mols, J, pols, t2i, shape, want_pathways=True, deph_common=dc,
+                                                          read_order=case.get("read_order")), tag)
+    except ReadChanged as e:
+        ctx.fail("reading-changes-the-response", tag, part=e.part, change=e.dev, order="".join(e.order))
+        return
     if not ok:
         return
     reph, nonr, totl, pws, agg = r
